@@ -284,3 +284,110 @@ theorem Rib.run_inv {r : Rib} (hr : r.Inv) (ops : List RibOp) : (r.run ops).Inv 
   | cons op t ih => exact ih (Rib.step_inv hr op)
 
 end Ndn.C08
+
+namespace Ndn.C08
+open Ndn.C07 (memb rem memb_iff mem_rem)
+
+/-- `fibPrefixes` holds exactly the prefixes with a next hop, each once -/
+structure FibTree.PfxInv (f : FibTree) : Prop where
+  nodup : f.pfx.Nodup
+  exact : ∀ m, m ∈ f.pfx ↔ (aget [] f.nh m).isEmpty = false
+
+theorem removeFirst_nonempty {α : Type} (p : α → Bool) (l : List α) (h : (removeFirst p l).isEmpty = false) :
+    l.isEmpty = false := by
+  cases hl : l.isEmpty with
+  | false => rfl
+  | true => rw [removeFirst_nil_of_nil p l hl] at h; cases h
+
+theorem FibTree.step_pfx {f : FibTree} (h : f.PfxInv) (op : FibOp) : (f.step op).PfxInv := by
+  have hprune : ∀ (g : FibTree) (n : Name), g.PfxInv → (g.pruneAt n).PfxInv := fun g n hg => ⟨hg.nodup, hg.exact⟩
+  cases op with
+  | ins n face =>
+    simp only [FibTree.step, FibTree.ins]
+    split
+    · exact ⟨h.nodup, h.exact⟩
+    · constructor
+      · show (if memb n f.pfx then f.pfx else f.pfx ++ [n]).Nodup
+        split
+        · exact h.nodup
+        · rename_i hm
+          rw [List.nodup_append]
+          refine ⟨h.nodup, by simp, ?_⟩
+          intro a ha b hb
+          simp at hb; subst hb
+          intro e; exact hm (memb_iff.mpr (e ▸ ha))
+      · intro m
+        show m ∈ (if memb n f.pfx then f.pfx else f.pfx ++ [n]) ↔ (aget [] (aset f.nh n (aget [] f.nh n ++ [face])) m).isEmpty = false
+        rw [aget_aset]
+        by_cases hmn : m = n
+        · subst hmn
+          simp only [↓reduceIte]
+          constructor
+          · intro _; simp
+          · intro _
+            split
+            · rename_i hm; exact memb_iff.mp hm
+            · simp
+        · simp only [hmn, ↓reduceIte]
+          rw [← h.exact m]
+          split
+          · rfl
+          · simp [hmn]
+  | rem n face =>
+    simp only [FibTree.step, FibTree.rem]
+    split
+    · apply hprune
+      constructor
+      · show (if (removeFirst (· == face) (aget [] f.nh n)).isEmpty then C07.rem n f.pfx else f.pfx).Nodup
+        split
+        · exact C07.rem_nodup h.nodup
+        · exact h.nodup
+      · intro m
+        show m ∈ (if (removeFirst (· == face) (aget [] f.nh n)).isEmpty then C07.rem n f.pfx else f.pfx) ↔
+          (aget [] (aset f.nh n (removeFirst (· == face) (aget [] f.nh n))) m).isEmpty = false
+        rw [aget_aset]
+        by_cases hmn : m = n
+        · subst hmn
+          simp only [↓reduceIte]
+          split
+          · rename_i he
+            rw [mem_rem]; simp [he]
+          · rename_i he
+            have he' : (removeFirst (· == face) (aget [] f.nh m)).isEmpty = false := by simpa using he
+            rw [he', h.exact m]
+            simp [removeFirst_nonempty _ _ he']
+        · simp only [hmn, ↓reduceIte]
+          rw [← h.exact m]
+          split
+          · rw [mem_rem]; simp [hmn]
+          · rfl
+    · exact h
+  | clr n =>
+    simp only [FibTree.step, FibTree.clr]
+    split
+    · apply hprune
+      constructor
+      · exact C07.rem_nodup h.nodup
+      · intro m
+        show m ∈ C07.rem n f.pfx ↔ (aget [] (aset f.nh n []) m).isEmpty = false
+        rw [aget_aset, mem_rem]
+        by_cases hmn : m = n
+        · simp [hmn]
+        · simp only [hmn, ↓reduceIte, ne_eq, not_false_eq_true, and_true]
+          exact h.exact m
+    · exact h
+  | set n => exact ⟨h.nodup, h.exact⟩
+  | uns n =>
+    simp only [FibTree.step, FibTree.uns]
+    split
+    · exact hprune _ n ⟨h.nodup, h.exact⟩
+    · exact h
+
+theorem FibTree.run_pfx {f : FibTree} (h : f.PfxInv) (ops : List FibOp) : (f.run ops).PfxInv := by
+  induction ops generalizing f with
+  | nil => exact h
+  | cons op t ih => exact ih (FibTree.step_pfx h op)
+
+theorem FibTree.init_pfx : ({} : FibTree).PfxInv := ⟨by simp, by intro m; simp [aget]⟩
+
+end Ndn.C08
